@@ -956,4 +956,4 @@ package server
 //@ func (*AofFile).Open
 //@   requires self != nil
 //@   ensures C08.open.aligned: implies(isnil(result) && self.mode == 1, self.size >= 12 && (self.size - 12) % 64 == 0)
-//@   modifies all
+//@   modifies AofFile.*, E_byte
